@@ -592,3 +592,23 @@ long mon_check_work(const ev_t *ev, size_t nev, const void *ws, long lw, const c
     free(B);
     return nalloc;
 }
+
+/* work arrays carved from the caller's workspace versus the parts of the same workspace that the returned factors occupy */
+long mon_check_work_vs(const ev_t *ev, size_t nev, const void *const *ptrs, const size_t *lens, const char *const *names, int cnt, const char *key)
+{
+    long nfail = 0;
+    for (size_t i = 0; i < nev && nfail < 2; ++i) {
+        if (ev[i].kind != SLUV_E_WORK_ALLOC || !ev[i].e) continue;
+        unsigned long lo[2] = { (unsigned long)ev[i].a, (unsigned long)ev[i].c }, hi[2] = { lo[0] + (unsigned long)ev[i].b, lo[1] + (unsigned long)ev[i].d };
+        for (int w = 0; w < 2 && nfail < 2; ++w) for (int q = 0; q < cnt; ++q) {
+            unsigned long a = (unsigned long)ptrs[q], b = a + lens[q];
+            if (lens[q] && lo[w] < b && a < hi[w]) {
+                char k2[96]; snprintf(k2, sizeof k2, "%s|work-array-overlaps-factors", key);
+                jo_fail(k2, "%s work array of thread %d [%#lx,%#lx) shares %lu bytes with the %s of the returned factors inside the caller's workspace",
+                        w ? "floating-point" : "integer", ev[i].tid, lo[w], hi[w], (hi[w] < b ? hi[w] : b) - (lo[w] > a ? lo[w] : a), names[q]);
+                ++nfail; break;
+            }
+        }
+    }
+    return nfail;
+}
